@@ -202,6 +202,7 @@ def main(argv):
         if cmd == 'setup':
             flav = sorted({b['flavour'] for c in CHECKS.values() for b in c['batches']})
             for f in flav: vlib.build(f)
+            vlib.build_cli(); vlib.build_decodecorpus()
             print('setup ok: flavours', ' '.join(flav)); return 0
         if cmd == 'selftest':
             return selftest(int(argv[1]) if len(argv) > 1 else 300)
@@ -212,7 +213,12 @@ def main(argv):
                 if argv[i] == '--tier': tier = argv[i + 1]; i += 2
                 elif argv[i] == '--replay': replay = argv[i + 1]; i += 2
                 else: i += 1
-            if replay: return vlib.replay_file(replay)
+            if replay:
+                if json.load(open(replay)).get('engine') == 'clisim':
+                    import clisim; return clisim.replay(replay)
+                return vlib.replay_file(replay)
+            if prop == 'C19':
+                import clisim; return clisim.check('C19', tier, default_root(tier), 160 if tier == 'quick' else 3000)
             if prop not in CHECKS: print('no check for', prop); return 2
             return run_check(prop, tier)
     except vlib.BuildError as e:
